@@ -67,7 +67,19 @@ RankFamily ==
         \A P \in BlackPairs : \A X \in Small(BlackThird, 1) :
           Emit(A \cup P \cup X \cup {<<27, Bl(vk)>>, <<7, W(King)>>, <<48, Bl(King)>>})
 
+\* MODE "battery": queens standing IN FRONT of an own rook or bishop on a line through the target (the cheaper piece
+\* behind is uncovered only when the queen has captured), for both sides.  Small; never thinned.
+WhiteBattery == {<<19, W(Queen)>>, <<11, W(Rook)>>, <<3, W(Rook)>>, <<20, W(Queen)>>, <<13, W(Bishop)>>, <<18, W(Pawn)>>, <<17, W(Knight)>>}
+BlackBattery == {<<35, Bl(Queen)>>, <<43, Bl(Rook)>>, <<51, Bl(Rook)>>, <<34, Bl(Queen)>>, <<41, Bl(Bishop)>>, <<36, Bl(Pawn)>>,
+                 <<37, Bl(Knight)>>}
+BatteryFamily ==
+    \A vk \in {Pawn, Knight, Rook, Queen} :
+      \A A \in {T \in Small(WhiteBattery, 3) : T # {} /\ Idx(T) % NSHARDS = SHARD} :
+        \A D \in Small(BlackBattery, 3) :
+          Emit(A \cup D \cup {<<27, Bl(vk)>>, <<7, W(King)>>, <<48, Bl(King)>>})
+
 Run == IF MODE = "rank" THEN RankFamily
+       ELSE IF MODE = "battery" THEN BatteryFamily
        ELSE Config(27, WhiteD4, BlackD4, FALSE) /\ Config(59, WhiteD8, BlackD8, FALSE)
 ASSUME Run
 VARIABLE x
